@@ -9,7 +9,7 @@ python3 - "$TMP" "$OUT" <<'PY'
 import sys, collections, re
 runs = collections.OrderedDict()
 for l in open(sys.argv[1]):
-    m = re.match(r'^(\S+) (C\d+) exit=(\d+) (\d+) alarms: (.*)$', l.strip())
+    m = re.match(r'^(\S+) (C\d+) exit=(\d+) (\d+) alarms:\s*(.*)$', l.strip())
     if m:
         runs.setdefault(m.group(1), []).append((m.group(2), int(m.group(3)), int(m.group(4)), m.group(5)))
 desc = {}
